@@ -329,6 +329,13 @@ def acyclicB (g : Graph) (ends : List Nat) : Bool :=
 def reachesB (g : Graph) (b a : Nat) : Bool :=
   (closeN g [] g.n (addNew [] (succs g [] b))).contains a
 
+/-- stream `s` leaves a given unit and that unit is downstream of the stream's sink: `s` lies on a cycle -/
+def onCycleB (g : Graph) (s : Nat) : Bool :=
+  (List.range g.n).any fun a => (g.outsOf a).contains s &&
+    match g.sinkOf s with
+    | some b => a == b || reachesB g b a
+    | none => false
+
 inductive Verdict where
   | valid
   | units          -- the path's unit set differs from the given units
@@ -338,12 +345,13 @@ inductive Verdict where
   | recycleOnDag   -- acyclic: a recycle is reported
   | noRecycle      -- cyclic: no recycle is reported
   | notCut         -- cyclic: a cycle survives the removal of the reported recycle streams
+  | offCycle       -- cyclic: a reported recycle stream does not lie on any cycle
   | backward       -- cyclic: a stream against the path order is not on a cycle inside a common recycle loop
   deriving Repr, DecidableEq
 
 def Verdict.toString : Verdict → String
   | .valid => "valid" | .units => "units" | .dup => "dup" | .recycleSet => "recycle-set" | .order => "order"
-  | .recycleOnDag => "recycle-on-dag" | .noRecycle => "no-recycle" | .notCut => "recycles-do-not-cut"
+  | .recycleOnDag => "recycle-on-dag" | .noRecycle => "no-recycle" | .notCut => "recycles-do-not-cut" | .offCycle => "recycle-off-cycle"
   | .backward => "backward"
 
 def nodupB : List Nat → Bool
@@ -361,6 +369,7 @@ def checkNetwork (g : Graph) (p : Item) (R : List Nat) : Verdict :=
     if hasCycle g then
       if R.isEmpty then .noRecycle
       else if !acyclicB g R then .notCut
+      else if !R.all (onCycleB g) then .offCycle
       else
         let lp := p.loops
         if es.all (fun (a, b) => pos a < pos b ||
@@ -383,6 +392,7 @@ def failingClauses (g : Graph) (p : Item) (R : List Nat) : List Verdict :=
     (if !(R.all (allRecycles p).contains && (allRecycles p).all R.contains) then [.recycleSet] else []) ++
     (if hasCycle g then
       (if R.isEmpty then [.noRecycle] else if !acyclicB g R then [.notCut] else []) ++
+      (if !R.all (onCycleB g) then [.offCycle] else []) ++
       (if es.all (fun (a, b) => pos a < pos b ||
             (reachesB g b a && p.loops.any (fun l => l.contains a && l.contains b))) then [] else [.backward])
     else
